@@ -116,6 +116,44 @@ def run(chk):
                                       ts, "ran" if ran else "did not run", "falsey" if falsey(tv) else "truthy"),
                                   {"pattern": ts, "stdout": rr["out"].decode("utf-8", "replace")[-200:],
                                    "stderr": rr["err"].decode("utf-8", "replace")[-300:]})
+        # filter patterns without an action select the packet (it is written to the output) exactly when the value is
+        # truthy; a filter with an action never writes; a pattern that does not match leaves the later filters alone
+        from . import pkt
+        three = os.path.join(work, "three.pcap")
+        with open(three, "wb") as fh:
+            fh.write(pkt.pcap_file([(1, 2, bytes(range(60))), (2, 3, bytes(range(61))), (3, 4, bytes(range(62)))]))
+        for i, (ts, tv) in enumerate(REPS):
+            if ts == "stdin":
+                continue
+            progs = [("select", "@ %s\n" % ts, 0 if falsey(tv) else 3, None),
+                     ("action-never-writes", "@ %s { let q = 1; }\n" % ts, 0, None),
+                     ("later-filters-run", "@ %s { let q = 1; }\n@ true { eprintln(\"second {}\", NP); }\n" % ts, 0, b"second 1\nsecond 2\nsecond 3\n")]
+            for name, text, nrec, want_err in progs:
+                script = os.path.join(work, "g.p2")
+                with open(script, "w", encoding="utf-8") as fh:
+                    fh.write(text)
+                rel = (i % 2 == 1)
+                with open(three, "rb") as fi:
+                    rr = core.run_binary([script], stdin_file=fi, release=rel, timeout=20)
+                if rr["timeout"]:
+                    chk.inconc("timeout in filter run")
+                    continue
+                chk.observed(("filter-" + name, kind(tv), falsey(tv)))
+                if core.crashed(rr):
+                    chk.violation("filter-pattern-crash|kind=%s" % kind(tv), "filter with pattern %s crashes" % ts,
+                                  {"program": text, "stderr": rr["err"].decode("utf-8", "replace")[-300:]})
+                    continue
+                hdr, recs, rest = pkt.parse_pcap(rr["out"])
+                got = len(recs) if hdr is not None else None
+                err = rr["err"].decode("utf-8", "replace")
+                bad = None
+                if got != nrec:
+                    bad = "%d packet(s) written, expected %d of 3 (the pattern value is %s)" % (got if got is not None else -1, nrec, "falsey" if falsey(tv) else "truthy")
+                elif want_err is not None and want_err.decode() not in err:
+                    bad = "the filter after it did not run for every packet (stderr %r)" % err[:160]
+                if bad:
+                    chk.violation("pos=filter-%s|kind=%s|falsey=%s" % (name, kind(tv), falsey(tv)),
+                                  "filter program %r: %s" % (text.strip(), bad), {"program": text, "stderr": err[-300:], "stdout_bytes": len(rr["out"])})
     finally:
         import shutil
         shutil.rmtree(work, ignore_errors=True)
